@@ -109,6 +109,13 @@ NameUrlShapes ==
     [val |-> <<"<https://r.example/a b>">>, yaml |-> "string", pred |-> NU("", "https://r.example/a b")],
     [val |-> <<"Mom <http://>">>, yaml |-> "string", pred |-> NU("Mom <http://>", "")],
     [val |-> <<"{name: Rachel, url: ", "QUOTE", "https://r.example", "QUOTE", "}">>, yaml |-> "raw", pred |-> NU("Rachel", "https://r.example")],
+    \* a mapping gives name and/or url: either field alone is enough, other fields are ignored, a field that is not a string counts as absent
+    [val |-> <<"{name: Rachel}">>, yaml |-> "raw", pred |-> NU("Rachel", "")],
+    [val |-> <<"{url: ", "QUOTE", "https://r.example", "QUOTE", "}">>, yaml |-> "raw", pred |-> NU("", "https://r.example")],
+    [val |-> <<"{name: Rachel, x: 1}">>, yaml |-> "raw", pred |-> NU("Rachel", "")],
+    [val |-> <<"{name: Rachel, url: 5}">>, yaml |-> "raw", pred |-> NU("Rachel", "")],
+    [val |-> <<"{name: 5, url: ", "QUOTE", "https://r.example", "QUOTE", "}">>, yaml |-> "raw", pred |-> NU("", "https://r.example")],
+    [val |-> <<"{name: 5}">>, yaml |-> "raw", pred |-> None], [val |-> <<"{}">>, yaml |-> "raw", pred |-> None],
     [val |-> <<"[a, b]">>, yaml |-> "raw", pred |-> None], [val |-> <<"{x: 1}">>, yaml |-> "raw", pred |-> None] }
 \* ---- locale ----------------------------------------------------------------------------------------------------------
 LocaleShapes ==
